@@ -620,6 +620,11 @@ class Interp:
             return npmodel.ext_attr(self, o, name)
         if isinstance(o, RepoMod):
             r = frontend.resolve_name(o.mod, name)
+            if r is None and o.mod.relpath.endswith("__init__.py"):
+                # a submodule imported anywhere in the package is an attribute of the package
+                rp = frontend.dotted_to_relpath(o.mod.dotted() + "." + name)
+                if rp is not None and any((m_ == name) for (m_, lvl) in o.mod.star_imports) or (rp is not None and name in [v[1] if v[0] == "from" and v[2] == name else None for v in o.mod.imports.values()]):
+                    r = ("module", frontend.load(rp))
             if r is None:
                 raise PyException("AttributeError", "module %s has no attribute %s" % (o.mod.relpath, name))
             return self.from_resolution(r, None)
@@ -784,8 +789,8 @@ class Interp:
             if isinstance(a, ExtRef) and isinstance(b, ExtRef) and op in ("Eq", "NotEq"):
                 return (a.dotted == b.dotted) == (op == "Eq")
         if isinstance(a, DType) or isinstance(b, DType):
-            from .npmodel import dtype_name
-            r = dtype_name(a) == dtype_name(b)
+            from .npmodel import exact_dtype
+            r = exact_dtype(a) == exact_dtype(b)
             return r if op == "Eq" else not r
         return cmp(sym[op], a, b)
 
